@@ -1,3 +1,4 @@
+import IoraModel.Gen.Timer
 /-
 Model of `include/iora/core/timer.hpp` (class `TimerService`), property C08.
 
@@ -195,15 +196,22 @@ def schedulePeriodic (L : Limits) (s : Svc) (now interval : Int) : Svc × Nat :=
 /-- `it->second.canceled = true` for the record with this id, if it is not cancelled yet -/
 def markCanceled (id : Nat) (r : Rec) : Rec := if r.id == id && !r.canceled then { r with canceled := true } else r
 
-/-- mirrors `cancel(id)` (one locked section): a live record is marked; a periodic entry is erased and its invocation guard closed -/
-def cancel (s : Svc) (id : Nat) : Svc × Bool :=
+/-- mirrors `cancel(id)` (one locked section): a live record is marked; a periodic entry is marked (if it is not yet — a `drain`
+sweep may have marked it before), its invocation guard is closed and the entry is erased.  WHERE the guard store sits relative to
+the `if (!entry.canceled)` transition block is read from the source (`Gen.Timer.svcCancelClosesGuardAlways`): the model closes the
+guard exactly when the code does. -/
+def cancelWith (always : Bool) (s : Svc) (id : Nat) : Svc × Bool :=
   let hit1 := match findRec s.records id with
     | some r => !r.canceled
     | none => false
   let recs := s.records.map (markCanceled id)
   match findPer s.periodic id with
-  | some _ => ({ s with records := recs, periodic := erasePer s.periodic id, closed := id :: s.closed }, true)
+  | some pt =>
+    let closes := always || !pt.canceled
+    ({ s with records := recs, periodic := erasePer s.periodic id, closed := if closes then id :: s.closed else s.closed }, true)
   | none => ({ s with records := recs }, hit1)
+
+def cancel (s : Svc) (id : Nat) : Svc × Bool := cancelWith Gen.Timer.svcCancelClosesGuardAlways s id
 
 /-! ### the loop thread -/
 
@@ -264,6 +272,14 @@ inductive StartOut where
   | started (h : Hnd)         -- the user's handler starts
   | skipped (h : Hnd)         -- periodic invocation guard closed by `cancel()`: the user's handler is not called
   deriving Repr
+
+def StartOut.startedId : StartOut → Option Nat
+  | .started h => some h.id
+  | _ => Option.none
+
+def StartOut.skippedId : StartOut → Option Nat
+  | .skipped h => some h.id
+  | _ => Option.none
 
 /-- the loop thread takes the next collected handler: `safeRun(h)` up to the call of the user's code -/
 def hstart (s : Svc) : Svc × StartOut :=
